@@ -20,6 +20,10 @@ repository is executed) over an abstract state:
                 {} otherwise.
  module         load_api_specific_resource_module(name, api): api=None -> loader(DEFAULT_API);
                 otherwise loader(api), and when that yields {} a second call with DEFAULT_API.
+ concrete grid  the same fallback / module clauses for every request -5..20 (int and str) over levels {4, 7, 16}: decides code
+                that computes with levels (table lookups, arithmetic), which leaves the order-type domain.
+ history        two calls on one interpreter (mappings then permissions, and the other orders): the second answer equals the
+                answer it gives when asked first.
  falsy-zero     api=0 (a valid int request, below the lowest level) must not be treated as
                 "no api given".
 The reported construct is the abstract failing request and the wrong choice (semantic
@@ -214,8 +218,9 @@ def _show(res, levels):
 
 
 class Model:
-    def __init__(self, repo, perm_levels, map_levels, default, listing_rotation=1):
+    def __init__(self, repo, perm_levels, map_levels, default, listing_rotation=1, concrete=False):
         self.repo = repo
+        self.concrete = concrete
         pl = list(perm_levels)
         pl = pl[listing_rotation % len(pl):] + pl[:listing_rotation % len(pl)]
         self.perm_levels = sorted(perm_levels)
@@ -228,12 +233,12 @@ class Model:
         reps = set(self.perm_levels) | set(self.map_levels)
 
         def int_hook(v):
-            return Pt("lvl", v, zero_ok=True)
+            return v if self.concrete else Pt("lvl", v, zero_ok=True)
 
         it = Interp(self.repo, natives=natives, lenient=LENIENT, int_hook=int_hook,
                     global_overrides={
                         (ASR, "__file__"): ROOT + "/__init__.py",
-                        (ANDROCONF, "CONF"): ConfModel({"DEFAULT_API": Pt("default", self.default, zero_ok=True)}),
+                        (ANDROCONF, "CONF"): ConfModel({"DEFAULT_API": self.default if self.concrete else Pt("default", self.default, zero_ok=True)}),
                         "open": _Builtin(lambda it_, *a, **k: open_(*a, **k), "open"),
                     })
         it.calls = []
@@ -255,6 +260,19 @@ class Model:
             r = "raises %s" % e.name
         it.calls = log
         return r, it
+
+
+def run_seq(model, calls):
+    """several calls on ONE interpreter (module-level state of the analysed modules persists between them)
+    -> list of results"""
+    it = model.interp()
+    out = []
+    for func, args in calls:
+        try:
+            out.append(it.call(it.closure_of(func), args))
+        except PyRaise as e:
+            out.append("raises %s" % e.name)
+    return out
 
 
 def _req(rep, as_str):
@@ -409,12 +427,75 @@ def check_module(sink, repo, conf):
                "an unknown resource name is not rejected", node=f.node, detail="unknown resource -> %s" % (got,))
 
 
+def check_concrete(sink, repo, m, conf):
+    """the same clauses on a concrete grid: levels {4, 7, 16}, mappings {7, 16}, default 16, every request from -5 to 20 as int
+    and as str.  Decides code that does arithmetic / indexing on levels (outside the order-type domain) and, by issuing two
+    calls on one interpreter, answers that depend on an earlier call."""
+    lp = m.func("load_permissions")
+    f = conf.func("load_api_specific_resource_module")
+    perm, maps, default = (4, 7, 16), (7, 16), 16
+    for rot in (1, 2):
+        model = Model(repo, perm, maps, default, rot, concrete=True)
+        for r in range(-5, 21):
+            for as_str in (False, True):
+                arg = str(r) if as_str else r
+                want = Loaded("%s/aosp_permissions/permissions_%d.json" % (ROOT, _choose(r, perm)), "permissions")
+                got, _ = model.run(lp, [arg, "permissions"])
+                sink.count("concrete_cases")
+                sink.check("fallback", "concrete grid: levels %s listing %d, request %r" % (list(perm), rot, arg), got == want, lp,
+                           "concrete request %r with levels %s: loads %s, expected %s" % (arg, list(perm), _show(got, perm), _show(want, perm)),
+                           "load_permissions(%r, 'permissions') with available levels %s loads %s; the documented fallback selects %s"
+                           % (arg, list(perm), _show(got, perm), _show(want, perm)), node=lp.node,
+                           detail="request %r -> %s" % (arg, _show(got, perm)))
+    model = Model(repo, perm, maps, default, 1, concrete=True)
+
+    def want_for(res, r):
+        if res == "aosp_permissions":
+            return Loaded("%s/aosp_permissions/permissions_%d.json" % (ROOT, _choose(default if r is None else r, perm)), "permissions")
+        return JsonDoc("%s/api_permission_mappings/permissions_%d.json" % (ROOT, r if r in maps else default))
+    for res, levels in (("aosp_permissions", perm), ("api_permission_mappings", maps)):
+        for r in [None] + list(range(-5, 21)):
+            for as_str in ((False,) if r is None else (False, True)):
+                if r == 0 and not as_str:
+                    continue  # int 0 is the falsy-zero clause of the order-type part
+                arg = str(r) if as_str else r
+                got, _ = model.run(f, [res, arg])
+                sink.count("concrete_cases")
+                sink.check("module", "concrete grid: %s, api %r" % (res, arg), got == want_for(res, r), f,
+                           "concrete api %r: %s -> %s, expected %s" % (arg, res, _show(got, levels), _show(want_for(res, r), levels)),
+                           "load_api_specific_resource_module(%r, %r) yields %s, expected %s" % (res, arg, _show(got, levels), _show(want_for(res, r), levels)),
+                           node=f.node, detail="api %r -> %s" % (arg, _show(got, levels)))
+    # ---- answers must not depend on earlier calls (two calls on one interpreter, every order of the two resources)
+    names = ("api_permission_mappings", "aosp_permissions")
+    for r in (4, 7, 10, 16, 20):
+        for first, second in ((names[0], names[1]), (names[1], names[0]), (names[1], names[1]), (names[0], names[0])):
+            for as_str in (False, True):
+                arg = str(r) if as_str else r
+                res = run_seq(model, [(f, [first, arg]), (f, [second, arg])])
+                lv = perm if second == "aosp_permissions" else maps
+                want = want_for(second, r)
+                sink.count("history_cases")
+                sink.check("history", "%s(%r) then %s(%r)" % (first, arg, second, arg), res[1] == want, f,
+                           "after %s, api %r: %s -> %s, expected %s" % (first, arg, second, _show(res[1], lv), _show(want, lv)),
+                           "load_api_specific_resource_module(%r, %r) after a call for %r with the same api yields %s; asked first it yields %s "
+                           "(the answer depends on an earlier call)" % (second, arg, first, _show(res[1], lv), _show(want, lv)), node=f.node,
+                           detail="second call -> %s, as if asked first" % _show(res[1], lv))
+
+
 def core(sink, repo):
     m = sink.mod(ASR)
     conf = sink.mod(ANDROCONF)
-    check_load_permissions(sink, repo, m)
-    check_mappings(sink, repo, m)
-    check_module(sink, repo, conf)
+    try:
+        check_load_permissions(sink, repo, m)
+        check_mappings(sink, repo, m)
+        check_module(sink, repo, conf)
+    except NotModelled as e:
+        if "order-type" not in str(e):
+            raise
+        # the code computes with levels (arithmetic, indexing): outside the order-type domain; the concrete grid below decides
+        sink.count("order_type_left")
+        sink.note("order-type part left its domain (%s); decided on the concrete grid only" % e)
+    check_concrete(sink, repo, m, conf)
 
 
 # --------------------------------------------------------------------------- thorough: mutation adequacy
@@ -565,9 +646,12 @@ def run(ctx):
         core(ctx, ctx.repo)
     except PyRaise as e:
         raise AnalysisError("model evaluation raised %s outside a decided clause" % e)
-    ctx.floor("fallback_cases", 69)
-    ctx.floor("mapping_cases", 14)
-    ctx.floor("module_cases", 34)
+    if not ctx.counts.get("order_type_left"):
+        ctx.floor("fallback_cases", 69)
+        ctx.floor("mapping_cases", 14)
+        ctx.floor("module_cases", 34)
+    ctx.floor("concrete_cases", 200)
+    ctx.floor("history_cases", 40)
     ctx.assume("os.path.isfile(<dir>/permissions_<n>.json) holds exactly for the levels that os.listdir(<dir>) shows "
                "(one model file system serves both calls)")
     ctx.assume("JSON documents of existing levels are non-empty dicts; CONF['DEFAULT_API'] is an available level of both directories")
